@@ -458,7 +458,9 @@ func (w FederatingWrappedCallbacks) follow(c context.Context, a vocab.ActivitySt
 			// Unlock must be called by now and every branch above.
 		}
 		// Lock without defer!
-		w.db.Lock(c, w.inboxIRI)
+		if err := w.db.Lock(c, w.inboxIRI); err != nil {
+			return err
+		}
 		outboxIRI, err := w.db.OutboxForInbox(c, w.inboxIRI)
 		if err != nil {
 			w.db.Unlock(c, w.inboxIRI)
